@@ -241,7 +241,18 @@ class Gen:
                 if t['size']:
                     n = max(n, t['size'][0])
             alpha = ALPHABETS[t['kind']]
-            return ''.join(r.choice(alpha) for _ in range(n))
+            s = ''.join(r.choice(alpha) for _ in range(n))
+            if for_default:
+                # keep DEFAULT texts inside what the value notation and the generator's renderer handle
+                # (no quotes / control characters) and not number-like (see finding numeric-cstring-default)
+                safe = [c for c in alpha if c.isalpha() and c.isascii()] or ['0']
+                s = ''.join(c if (c.isalnum() and c.isascii()) or c == ' ' else r.choice(safe) for c in s)
+                if s and t['kind'] != 'NumericString' and not any(c.isalpha() for c in s):
+                    s = r.choice(safe) + s[1:]
+                s = s.strip() or (r.choice(safe) * n)
+                if len(s) < n:
+                    s = s + r.choice(safe) * (n - len(s))
+            return s
         if k == 'seqof':
             n = self.length(t['size'])
             if n > 40 and not cheap(t['elem']):
@@ -292,7 +303,7 @@ def defaultable(t):
     if t['k'] in ('octs', 'bits'):
         return True
     if t['k'] == 'str':
-        return t['kind'] in ('IA5String', 'VisibleString', 'PrintableString', 'UTF8String')
+        return t['kind'] in ('IA5String', 'VisibleString', 'PrintableString', 'UTF8String') and (not t['size'] or t['size'][0] < 6)
     return False
 
 
